@@ -482,6 +482,7 @@ func c15StartIsNext(p *Prog, c *Check, sp syncerSpec) {
 	// all values the start can take
 	var srcs []ssa.Value
 	seen := map[ssa.Value]bool{}
+	addOff := map[ssa.Value]int64{}
 	var flat func(v ssa.Value)
 	flat = func(v ssa.Value) {
 		if seen[v] {
@@ -494,6 +495,27 @@ func c15StartIsNext(p *Prog, c *Check, sp syncerSpec) {
 				flat(e)
 			}
 			return
+		case *ssa.Convert:
+			// uint64(phi + 1): look through the conversion when the operand is a sum over a phi
+			if bo, ok := x.X.(*ssa.BinOp); ok && bo.Op == token.ADD {
+				if _, isPhi := bo.X.(*ssa.Phi); isPhi {
+					flat(bo)
+					return
+				}
+			}
+		case *ssa.BinOp:
+			// phi + k: each incoming value of the phi, plus k
+			if ph, isPhi := x.X.(*ssa.Phi); isPhi && x.Op == token.ADD {
+				if k, isK := x.Y.(*ssa.Const); isK && k.Value != nil {
+					if kv, exact := constant.Int64Val(k.Value); exact {
+						for _, e := range ph.Edges {
+							addOff[e] += kv
+							flat(e)
+						}
+						return
+					}
+				}
+			}
 		case *ssa.UnOp:
 			if al, ok := x.X.(*ssa.Alloc); ok && x.Op == token.MUL {
 				any := false
@@ -575,7 +597,7 @@ func c15StartIsNext(p *Prog, c *Check, sp syncerSpec) {
 		}
 		n++
 		lin := linearize(t, true)
-		ok := len(lin.Coef) == 1 && lin.C == 1
+		ok := len(lin.Coef) == 1 && lin.C+addOff[s] == 1
 		for k := range lin.Coef {
 			if lin.Coef[k] != 1 {
 				ok = false
@@ -607,17 +629,12 @@ func c18ParamPattern(p *Prog, c *Check) {
 	}
 	c.Analysed(shortFn(fn))
 	n := 0
-	// the translation: in findOperation or in a helper of the package it calls
+	// the translation: in findOperation or in a helper of the package it reaches
 	var cis []ssa.CallInstruction
-	cis = append(cis, callsTo(fn, "(*regexp.Regexp).ReplaceAllString")...)
-	for _, b := range fn.Blocks {
-		for _, in := range b.Instrs {
-			if hc, ok := in.(*ssa.Call); ok {
-				if g := hc.Common().StaticCallee(); g != nil && inModule(g) && g.Blocks != nil && fnPkgPath(g) == fnPkgPath(fn) && !isGeneratedFile(p.fileOf(g)) {
-					cis = append(cis, callsTo(origin(g), "(*regexp.Regexp).ReplaceAllString")...)
-				}
-			}
-		}
+	for _, g := range p.CG().Reachable([]*ssa.Function{fn}, func(f *ssa.Function) bool {
+		return !inModule(f) || isGeneratedFile(p.fileOf(f)) || fnPkgPath(f) != fnPkgPath(fn)
+	}) {
+		cis = append(cis, callsTo(g, "(*regexp.Regexp).ReplaceAllString")...)
 	}
 	for _, ci := range cis {
 		args := ci.Common().Args
@@ -713,4 +730,74 @@ func c19AdvanceOnlyReleased(p *Prog, c *Check) {
 		}
 	}
 	c.Floor(rule, n, 2)
+}
+
+// ---------------------------------------------------------------- absent log value never matches
+
+// absentValueRule: GetValue answers nil when the log has no such value (a topic index beyond the
+// log's topics, a dynamic reference that is not a valid ABI encoding). big.Int.SetBytes(nil) is 0 and
+// bytes.Equal(nil, []byte{}) is true, so a predicate evaluated on nil can hold for a log that does not
+// contain the referenced value at all: the value predicate may only be evaluated on a value known to
+// be present.
+func absentValueRule(p *Prog, c *Check, rule string) {
+	n := 0
+	for _, cs := range p.allCallsTo("(*keyperimpl/shutterservice.ValuePredicate).Match") {
+		if isTestScaffold(cs.Caller) {
+			continue
+		}
+		call, ok := cs.Instr.(*ssa.Call)
+		if !ok {
+			continue
+		}
+		n++
+		fi := p.Info(cs.Caller)
+		c.Analysed(shortFn(cs.Caller))
+		v := fi.T(call.Common().Args[1])
+		c.Guard(p, rule, "ValuePredicate.Match@"+shortFn(cs.Caller), call, "ValuePredicate.Match(value)", Binds{"v": v}, "$v != nil")
+	}
+	c.Floor(rule, n, 1)
+}
+
+// ---------------------------------------------------------------- C03-R10: keys belong to the trigger
+
+// keysBelongToTrigger: the Gnosis middleware decorates an outgoing keys message with the slot, the tx
+// pointer and the signatures of the keyper's CURRENT decryption trigger. That is only right when the
+// keys are the ones of that trigger: the shares interceptor compares the identities hash of the
+// message with the trigger's before it signs, and the keys interceptor must do the same before it
+// attaches (otherwise keys of slot s+1 leave with slot s's signatures, every peer rejects them, and
+// the tx pointer is advanced with the stale values).
+func keysBelongToTrigger(p *Prog, c *Check, rule string) {
+	fn, err := p.Func("keyperimpl/gnosis.MessagingMiddleware.interceptDecryptionKeys")
+	if !c.Must(err) {
+		return
+	}
+	fns := []*ssa.Function{fn}
+	for _, b := range fn.Blocks {
+		for _, in := range b.Instrs {
+			if hc, ok := in.(*ssa.Call); ok {
+				if g := hc.Common().StaticCallee(); g != nil && inModule(g) && g.Blocks != nil && fnPkgPath(g) == fnPkgPath(fn) && !isGeneratedFile(p.fileOf(g)) {
+					fns = append(fns, origin(g))
+				}
+			}
+		}
+	}
+	n := 0
+	for _, f := range fns {
+		for _, b := range f.Blocks {
+			for _, in := range b.Instrs {
+				al, ok := in.(*ssa.Alloc)
+				if !ok || !strings.HasSuffix(types.TypeString(deref(al.Type()), relQual), "p2pmsg.GnosisDecryptionKeysExtra") {
+					continue
+				}
+				n++
+				c.Analysed(shortFn(f))
+				okG, _, _, _ := p.guardLift(al, Binds{}, []string{"Equal(computeIdentitiesHash(_), GetCurrentDecryptionTrigger(...)#0.IdentitiesHash) == true"}, 0)
+				if !okG {
+					okG, _, _, _ = p.guardLift(al, Binds{}, []string{"Equal(GetCurrentDecryptionTrigger(...)#0.IdentitiesHash, computeIdentitiesHash(_)) == true"}, 0)
+				}
+				c.Result(okG, rule, "interceptDecryptionKeys:extra-from-trigger@"+shortFn(f), p.siteOf(al), shortFn(f), "slot / tx pointer / signatures of the current trigger attached to a keys message", "the keys message is decorated with the current decryption trigger's slot, tx pointer and signatures without a check that its identities are the trigger's (identities hash equality, as the shares interceptor does): keys of another slot leave with this slot's signatures and are rejected by every peer, and the tx pointer is advanced with stale values", "bytes.Equal(identities hash of the keys, trigger.IdentitiesHash)")
+			}
+		}
+	}
+	c.Floor(rule, n, 1)
 }
